@@ -75,6 +75,24 @@ class _Data:
         self.treatment_ids = np.array(treatment_ids, dtype=int).reshape(len(sample_ids), arity)
         self.treatment_arity = arity
         self.size = len(sample_ids)
+        self._np = np
+
+    # the derived read-only attributes of ScreenBase, computed the way ScreenBase computes them
+    @property
+    def unique_sample_ids(self):
+        return self._np.unique(self.sample_ids)
+
+    @property
+    def unique_treatments(self):
+        return self._np.setdiff1d(self._np.unique(self.treatment_ids), [-1])
+
+    @property
+    def n_unique_samples(self):
+        return len(self.unique_sample_ids)
+
+    @property
+    def n_unique_treatments(self):
+        return len(self.unique_treatments)
 
 
 class _P:
